@@ -9,13 +9,51 @@ Open Scope Z_scope.
 (* except RequestError: raise / except Exception: raise RequestError *)
 Definition wrap_request {A} (r : res A) : res A := wrap_all RequestError r.
 
-(* PortSegment(int(port) if port.isdigit() else port, link) for port, link in pairs *)
-Definition port_of_text (p : text) : Z + list Z :=
-  if isdigit p then match digits_val p 0 with Some n => inl n | None => inr p end else inr p.
-Fixpoint pair_up (l : list text) : list seg :=
+(* int(port) on ASCII text: blanks (TAB LF VT FF CR SPACE) around, an optional sign, digits with
+   single underscores between digits, at most sys.get_int_max_str_digits() = 4300 digits
+   (CPython 3.12 default; the limit counts digit characters, leading zeros included).
+   Kept here (not shared with Model/Path.v) so that this vertical's proofs rest on one definition. *)
+Definition INT_MAX_STR_DIGITS : Z := 4300.
+Definition int_ws (c : Z) : bool := ((9 <=? c) && (c <=? 13)) || (c =? 32).
+Fixpoint int_lstrip (s : text) : text :=
+  match s with
+  | c :: r => if int_ws c then int_lstrip r else s
+  | [] => []
+  end.
+Definition int_strip (s : text) : text := rev (int_lstrip (rev (int_lstrip s))).
+Fixpoint int_digits (s : text) (acc : Z) (prev_digit : bool) : option Z :=
+  match s with
+  | [] => if prev_digit then Some acc else None
+  | c :: r => if is_ascii_digit c then int_digits r (acc * 10 + (c - 48)) true
+              else if (c =? 95) && prev_digit then int_digits r acc false
+              else None
+  end.
+Definition int_unsigned (r : text) (neg : bool) : res Z :=
+  if Z.of_nat (List.length (filter is_ascii_digit r)) <=? INT_MAX_STR_DIGITS
+  then match int_digits r 0 false with
+       | Some z => Ok (if neg then - z else z)
+       | None => Err (Foreign ValueError)
+       end
+  else Err (Foreign ValueError).
+Definition int_of_text (s : text) : res Z :=
+  match int_strip s with
+  | [] => Err (Foreign ValueError)
+  | c :: r => if c =? 45 then int_unsigned r true
+              else if c =? 43 then int_unsigned r false
+              else int_unsigned (c :: r) false
+  end.
+
+(* PortSegment(int(port) if port.isdigit() else port, link) for port, link in pairs
+   (int() of more than 4300 digits raises ValueError: the whole parse fails) *)
+Definition port_of_text (p : text) : res (Z + list Z) :=
+  if isdigit p then let* n := int_of_text p in Ok (inl n) else Ok (inr p).
+Fixpoint pair_up (l : list text) : res (list seg) :=
   match l with
-  | p :: k :: r => Port (port_of_text p) (LinkStr k) :: pair_up r
-  | _ => []
+  | p :: k :: r =>
+      let* pt := port_of_text p in
+      let* rest := pair_up r in
+      Ok (Port pt (LinkStr k) :: rest)
+  | _ => Ok []
   end.
 
 (* parse_cip_route(path : List[str], auto_slot) *)
@@ -26,7 +64,7 @@ Definition parse_cip_route_list (segments : list text) (auto_slot : bool) : res 
      | [s] => if auto_slot then Ok [Port (inr (txt "bp")) (LinkStr s)]
               else Err RequestError                         (* 1 % 2 *)
      | _ => if Nat.odd (List.length segments) then Err RequestError
-            else Ok (pair_up segments)
+            else pair_up segments
      end).
 
 (* parse_cip_route(path : str, auto_slot): only the backslash is normalised here *)
@@ -39,7 +77,7 @@ Definition parse_host (ip : text) : res (text * option Z) :=
   if contains_chr 58 ip then
     match split_chr 58 ip with
     | [a; b] =>                                             (* ip, port = ip.split(':') *)
-        match py_int_full b with
+        match int_of_text b with
         | Ok p => if (p <=? 0) || (65535 <=? p) then Err RequestError else Ok (a, Some p)
         | Err _ => Err RequestError                         (* 'Invalid port' *)
         end
